@@ -182,4 +182,35 @@ REGISTRY = {
                     "total over a whole block = sum of the verified per-condition charges (composition lemma, checked for 3 steps)"],
         "assumptions": ["gen/cost_table.py (exact rational 100*(17/16)^i truncated to 3 significant digits) is the cost table"],
     },
+    "C05": {
+        "level_text": "Bounded proof (Kani/CBMC) of the message-binding half: each of the 8 AGG_SIG arms of the real parse_conditions "
+                      "lists (key, raw message) in the right per-spend / unsafe list and hands the verifier exactly "
+                      "(key, message || coin attributes selected by the opcode || that opcode's domain constant) - nothing when "
+                      "signature checking is off; malformed and infinity keys are rejected; AGG_SIG_UNSAFE messages ending in any of "
+                      "the 7 domain constants are rejected; make_aggsig_final_message yields the same text; validate_signature passes "
+                      "exactly pkm_pairs in order to either verifier and fails iff its verdict is false.",
+        "level_note": "BLS is modelled (S4): a key is an opaque 48-byte token, 'valid' and 'infinity' are predicates of its first byte, the "
+                      "verifier is a recorder with a nondeterministic verdict. Validity of the pairing equation, cache transparency "
+                      "and tampering of signature bytes are blst (FFI) and outside (see C15).",
+        "quick": ["c05_", "arm_sig_"],
+        "thorough": ["c01_args_agg_sig"],
+        "min_quick": 20,
+        "min_thorough": 28,
+        "timeout_quick": 1200,
+        "timeout_thorough": 1800,
+        "functions": [
+            "chia_consensus::conditions::parse_conditions (8 AGG_SIG arms, to_key, check_agg_sig_unsafe_message)",
+            "chia_consensus::make_aggsig_final_message::{make_aggsig_final_message,u64_to_bytes}",
+            "chia_consensus::conditions::validate_signature",
+        ],
+        "bounds": {"key": "48 bytes symbolic", "message": "heap-backed atom of 0,1,3,31,32,33,34 bytes symbolic (per instance)",
+                   "coin amount": "concrete boundary values 0,1,7,0x80,0x8000,2^64-1 (u64_to_bytes is proved for all u64 in C11)",
+                   "coin ids": "fixed in the arm harnesses; parent id and puzzle hash fully symbolic in the helper harnesses",
+                   "verifier": "2 (key,message) pairs", "flags": "32-bit word symbolic", "unwind": "60..130"},
+        "stubs": [S1, S2, S3, "S4 BLS model: PublicKey::{from_bytes,is_inf,to_bytes}, aggregate_verify, BlsCache::aggregate_verify",
+                  "H1 shim", "H3 accessors", "parse_args stub + concretizing visitor"],
+        "outside": ["pairing validity, signature/key tampering detection, cache transparency (blst FFI, C15)",
+                    "validate_clvm_and_signature's pairing path (needs run_program)"],
+        "assumptions": ["kh/src/c05.rs::spec_final_message is the table of coin attributes and domain constants per opcode"],
+    },
 }
